@@ -320,19 +320,21 @@ PROPS = {
         assumptions=OS_ASSUMPTIONS,
     ),
     "C06": dict(
-        theorems=[],
+        theorems=["c06_rejected_record_noop", "c06_err_is_noop", "c06_rejected_call_noop",
+                  "c06_batch_rejected_entry_noop", "c06_spec_rejects_vote", "c06_spec_rejects_commit"],
         gen=scripts_c06, project=proj_c06, oracle=oracle_c06,
         explanation="a rejected call is a no-op on the whole model state",
         assumptions=OS_ASSUMPTIONS,
     ),
     "C16": dict(
-        theorems=[],
+        theorems=["c16_call_no_panic_partial", "c16_fresh_panicFree", "c16_history_no_panic_partial",
+                  "c16_read_inverted_empty", "c16_truncate_zero_is_error", "c16_witness_u64_max"],
         gen=scripts_c16, project=proj_c16, oracle=oracle_c16,
         explanation="no panic branch of the checked-arithmetic model is reachable",
         assumptions=OS_ASSUMPTIONS + ["harness built with overflow-checks and debug-assertions on"],
     ),
     "C15": dict(
-        theorems=[],
+        theorems=["c15_accounting_exact", "c15_over_limit_only_pinned", "c15_drained"],
         gen=scripts_c15, project=proj_c15, oracle=oracle_c15,
         explanation="cache accounting invariant",
         assumptions=OS_ASSUMPTIONS,
